@@ -20,6 +20,7 @@ From MV Require Import Base.PyStr.
 From MV Require Import Base.Res.
 From MV Require Import Dir.PyLines.
 From MV Require Import Dir.DirModel.
+From MV Require Import Gen.LinesSrc.
 Import ListNotations.
 Open Scope N_scope.
 
@@ -201,6 +202,12 @@ Fixpoint lines_eqb (a b : list str) : bool :=
 
 Definition colons3 : str := [c_colon; c_colon; c_colon].
 
+(* The arithmetic itself is NOT written here: it is the expressions of the source, regenerated into Gen/LinesSrc.v
+   (gen/c04_linessrc.py).  The line a node gets from a block token whose map[0] is [idx] in a text rendered with
+   lineno [base]: nested_render_text shifts the map, _render_tokens makes it 1-based, token_line reads it. *)
+Definition node_line (base : Z) (idx : nat) : Z :=
+  token_line_src (render_tokens_map0_src (nested_map0_src (Z.of_nat idx) 0 base) 0) 0.
+
 Section Render.
 
 Variable tokenize : str -> res (list (str * str) * bool).
@@ -223,7 +230,7 @@ Fixpoint lines_blk (base : Z) (idx : nat) (b : blk) : res (list (nat * Z)) :=
         do r2 <- seq base (idx + height x + 1)%nat r;
         Ok (r1 ++ r2)
     end in
-  let line := (Z.of_nat idx + base + 1)%Z in          (* token.map[0] + lineno, then + 1 in _render_tokens *)
+  let line := node_line base idx in
   match b with
   | Leaf _ m _ ins =>
       (* _render_tokens: `for token_child in token.children: token_child.map = token.map` - inline tokens carry the
@@ -243,11 +250,11 @@ Fixpoint lines_blk (base : Z) (idx : nat) (b : blk) : res (list (nat * Z)) :=
       let hack := match fk with ColonFence => startswith content colons3 | Backtick => false end in
       let content_lines := if hack then [] :: content_lines else content_lines in
       let content := if hack then nl ++ content else content in
-      let prepended_lines := if hack then 1%nat else O in
+      let prepended_lines := if hack then Z.to_nat hack_prepended_src else O in
       do parsed <- parse_directive_text tokenize yaml_load sg first_line content
                      (Some (Z.to_nat position)) true None;
       let body := r_body parsed in
-      let content_offset := (r_body_offset parsed - Z.of_nat prepended_lines)%Z in
+      let content_offset := content_offset_src (r_body_offset parsed) (Z.of_nat prepended_lines) in
       match bs with
       | [] => Ok [(m, position)]
       | _ =>
@@ -261,7 +268,7 @@ Fixpoint lines_blk (base : Z) (idx : nat) (b : blk) : res (list (nat * Z)) :=
             | _ :: rest =>
                 let d := (length content_lines - length rest)%nat in
                 if lines_eqb rest (skipn d content_lines) && Nat.leb d first_child then
-                  do r <- seq (position + content_offset)%Z (first_child - d + 1)%nat bs;
+                  do r <- seq (nested_parse_lineno_src position content_offset) (first_child - d + 1)%nat bs;
                   Ok ((m, position) :: r)
                 else Raise AssertionError
             | [] => Raise AssertionError
@@ -269,7 +276,7 @@ Fixpoint lines_blk (base : Z) (idx : nat) (b : blk) : res (list (nat * Z)) :=
           else
           let d := (length content_lines - length body)%nat in
           if lines_eqb body (skipn d content_lines) && Nat.leb d first_child then
-            do r <- seq (position + content_offset)%Z (first_child - d)%nat bs;
+            do r <- seq (nested_parse_lineno_src position content_offset) (first_child - d)%nat bs;
             Ok ((m, position) :: r)
           else Raise AssertionError
       end
@@ -290,7 +297,7 @@ Definition document_lines (doc : list blk) : res (list (nat * Z)) := lines_seq 0
 (* an included file, from its line index [startline] on (the blocks of the selected text):
    MockIncludeDirective.run -> nested_render_text(text, startline + 1) *)
 Definition include_lines (startline : nat) (body : list blk) : res (list (nat * Z)) :=
-  lines_seq (Z.of_nat (startline + 1)) O body.
+  lines_seq (include_lineno_src (Z.of_nat startline)) O body.
 
 (* ---------- warnings and includes ---------- *)
 
@@ -301,7 +308,7 @@ Definition warning_line (position : nat) (w : pwarn) : nat :=
                 | W_invalid _ l | W_unknown _ l => l
                 | W_split | W_has_content => None
                 end in
-  match lineno with Some l => l | None => position end.
+  Z.to_nat (warning_line_src (option_map Z.of_nat lineno) (Z.of_nat position)).
 
 End Render.
 
@@ -322,16 +329,17 @@ Fixpoint find_sub (fuel : nat) (s needle : str) : option nat :=
 (* lineno passed to nested_render_text and the selected text, for start-line / start-after (after fix 451703c) *)
 Definition include_start (file_lines : list str) (start_line : option nat) (start_after : option str)
   : option (nat * str) :=
-  let startline := match start_line with Some s => s | None => O end in
+  let startline := Z.to_nat (include_startline0_src (option_map Z.of_nat start_line)) in
   let text := join_nl (include_select file_lines start_line None) in
   match start_after with
-  | None => Some ((startline + 1)%nat, text)
+  | None => Some (Z.to_nat (include_lineno_src (Z.of_nat startline)), text)
   | Some needle =>
       match find_sub (S (length text)) text needle with
       | None => None            (* DirectiveError: text not found *)
       | Some i =>
-          let cut := (i + length needle)%nat in
-          Some ((startline + count_nl (firstn cut text) + 1)%nat, skipn cut text)
+          let cut := Z.to_nat (include_cut_src (Z.of_nat i) needle) in
+          Some (Z.to_nat (include_lineno_src (include_advance_src (Z.of_nat startline) text (Z.of_nat i) needle)),
+                skipn cut text)
       end
   end.
 
